@@ -237,7 +237,19 @@ func (c *exprCtx) expr(v ssa.Value) string {
 				op += ":" + b.Name()
 			}
 		}
-		return "(" + c.expr(x.X) + " " + op + " " + c.expr(x.Y) + ")"
+		xs, ys := c.expr(x.X), c.expr(x.Y)
+		// comparisons have one spelling: only < and <=, operands of == and != in lexical order
+		switch x.Op {
+		case token.GTR:
+			return "(" + ys + " < " + xs + ")"
+		case token.GEQ:
+			return "(" + ys + " <= " + xs + ")"
+		case token.EQL, token.NEQ:
+			if ys < xs {
+				xs, ys = ys, xs
+			}
+		}
+		return "(" + xs + " " + op + " " + ys + ")"
 	case *ssa.Extract:
 		return c.expr(x.Tuple) + "#" + fmt.Sprint(x.Index)
 	case *ssa.Call:
